@@ -24,6 +24,8 @@ def std(pkg, qprop, tprop, fuzz=None, grid_shards_thorough=1, level="exploration
 
 
 PROPS = {
+    "C07": std("c07", 6000, 8000, fuzz=60, level="fault_enumeration", extra=dict(engine="rapid + per-frame fault-point enumeration + gofuzz")),
+    "C06": std("c06", 3000, 20000, extra=dict(engine="rapid (stream model + hand-written wire encoder) + table")),
     "C20": std("c20", 5000, 50000, extra=dict(engine="rapid (oracle by construction via reflect) + grid")),
     "C18": std("c18", 5000, 50000, extra=dict(engine="rapid stateful (model-based histories with injected faults)")),
     "C16": std("c16", 5000, 50000, fuzz=45),
